@@ -12,12 +12,15 @@ import (
 	"sort"
 	"strings"
 	"sync"
+	"testing"
+	"testing/synctest"
 	"time"
 
 	"github.com/uber/kraken/lib/healthcheck"
 	"github.com/uber/kraken/utils/stringset"
 
 	"verif/bfs"
+	"verif/e1q"
 	"verif/evid"
 	_ "verif/quiet"
 	"verif/rep"
@@ -28,24 +31,38 @@ import (
 type scripted struct {
 	mu    sync.Mutex
 	out   map[string]bool // host -> passes in the current round
+	slow  map[string]byte // host -> 't' (blocks until the deadline, returns ctx.Err()) or 'L' (ignores ctx, passes after 2x Timeout)
 	calls []string
 }
+
+const checkTimeout = time.Hour // virtual inside the synctest bubble of the timeout search
 
 var errScripted = errors.New("scripted check failure")
 
 func (c *scripted) Check(ctx context.Context, addr string) error {
 	c.mu.Lock()
-	defer c.mu.Unlock()
 	c.calls = append(c.calls, addr)
-	if pass, ok := c.out[addr]; ok && pass {
+	pass, ok := c.out[addr]
+	slow := c.slow[addr]
+	c.mu.Unlock()
+	switch slow {
+	case 't':
+		<-ctx.Done()
+		return ctx.Err()
+	case 'L':
+		time.Sleep(2 * checkTimeout)
+		return nil
+	}
+	if ok && pass {
 		return nil
 	}
 	return errScripted
 }
 
-func (c *scripted) round(out map[string]bool) {
+func (c *scripted) round(out map[string]bool, slow map[string]byte) {
 	c.mu.Lock()
 	c.out = out
+	c.slow = slow
 	c.calls = nil
 	c.mu.Unlock()
 }
@@ -115,6 +132,14 @@ type sys struct {
 	f             healthcheck.Filter
 	m             map[string]*hostModel
 	run           *evid.Run
+	timeouts      bool // outcome alphabet also has t (timed out) and L (answers OK after the deadline)
+}
+
+func newTimeoutSys(run *evid.Run, hosts []string, fails, passes int) *sys {
+	s := newSys(run, hosts, fails, passes)
+	s.timeouts = true
+	s.name = "T" + s.name
+	return s
 }
 
 func newSys(run *evid.Run, hosts []string, fails, passes int) *sys {
@@ -171,6 +196,27 @@ func (s *sys) Ops() []string {
 			}
 			ops = append(ops, strings.Join(toks, " "))
 		}
+		if s.timeouts {
+			// every outcome vector over {+,-,t,L} with at least one slow check
+			sym := []string{"+", "-", "t", "L"}
+			total := 1
+			for range listed {
+				total *= 4
+			}
+			for o := 0; o < total; o++ {
+				var toks []string
+				anySlow := false
+				x := o
+				for _, h := range listed {
+					toks = append(toks, h+sym[x%4])
+					anySlow = anySlow || x%4 >= 2
+					x /= 4
+				}
+				if anySlow {
+					ops = append(ops, strings.Join(toks, " "))
+				}
+			}
+		}
 	}
 	return ops
 }
@@ -183,27 +229,33 @@ func popcount(m int) int {
 	return c
 }
 
-func parseOp(op string) (list []string, out map[string]bool, err error) {
+func parseOp(op string) (list []string, out map[string]bool, slow map[string]byte, err error) {
 	out = map[string]bool{}
+	slow = map[string]byte{}
 	if op == "none" {
-		return nil, out, nil
+		return nil, out, slow, nil
 	}
 	for _, t := range strings.Fields(op) {
 		if len(t) < 2 {
-			return nil, nil, fmt.Errorf("bad op token %q", t)
+			return nil, nil, nil, fmt.Errorf("bad op token %q", t)
 		}
 		h, o := t[:len(t)-1], t[len(t)-1]
-		if o != '+' && o != '-' {
-			return nil, nil, fmt.Errorf("bad op token %q", t)
+		if !strings.ContainsRune("+-tL", rune(o)) {
+			return nil, nil, nil, fmt.Errorf("bad op token %q", t)
 		}
 		list = append(list, h)
+		// a check that has not answered when the timeout expires is a failed
+		// check, whatever it answers later
 		out[h] = o == '+'
+		if o == 't' || o == 'L' {
+			slow[h] = o
+		}
 	}
-	return list, out, nil
+	return list, out, slow, nil
 }
 
 func (s *sys) Apply(op string) error {
-	list, out, err := parseOp(op)
+	list, out, slow, err := parseOp(op)
 	if err != nil {
 		return err
 	}
@@ -243,8 +295,24 @@ func (s *sys) Apply(op string) error {
 	}
 
 	// 2. the real filter runs the round.
-	s.chk.round(out)
-	got := s.f.Run(stringset.New(list...))
+	s.chk.round(out, slow)
+	var got stringset.Set
+	if s.timeouts {
+		// virtual time: the round, its timeout and every late answer happen
+		// inside one bubble, which ends only when all its goroutines are gone
+		synctest.Test(e1q.T(), func(*testing.T) {
+			got = s.f.Run(stringset.New(list...))
+			// bubble time stops when this function returns: let the late answers
+			// (2x Timeout) arrive and be handled first
+			time.Sleep(3 * checkTimeout)
+			synctest.Wait()
+		})
+		if len(slow) > 0 {
+			events.record("round_with_timed_out_check", id)
+		}
+	} else {
+		got = s.f.Run(stringset.New(list...))
+	}
 	calls := s.chk.taken()
 
 	// 3. every check the implementation actually performed on a listed host
@@ -396,11 +464,13 @@ func (s *sys) Key() string {
 
 // ---------------------------------------------------------------- main
 
-func main() {
+func main() { e1q.Main(func(*testing.T) { realMain() }) }
+
+func realMain() {
 	run := evid.New("C23", "model_checking")
 	run.Rule = "E3: per (Fails,Passes) configuration, BFS over all histories of filter rounds on a real healthcheck.NewFilter with a scripted Checker; one round = host list (any subset of the hosts, hosts leave and rejoin, including the empty and single-host lists) x pass/fail per listed host; states deduplicated on model state + internal filter state (membership, healthy set, trend counters); after every round Run's result is compared with the literal predicate of the statement. distinct = distinct (configuration, model state) pairs in which some host is unhealthy, absent after having been listed, or has rejoined."
 	run.Assume("small-scope: hosts {x,y,z} (thorough also a 2-host universe), Fails/Passes in 1..3")
-	run.Assume("a check outcome is pass or fail as returned by the Checker; per-check timeouts are not exercised (Timeout is set to 1h, the scripted Checker answers immediately)")
+	run.Assume("a check outcome is pass, fail, t (the Checker honours the context and returns its error when the 1h Timeout expires) or L (the Checker ignores the context and answers OK after 2x Timeout); t and L are failed checks; the slow outcomes are explored in a separate 2-host search in which every round runs in a testing/synctest bubble (virtual time; the bubble ends when the late answer has been delivered)")
 	run.Assume("the statement does not say in which rounds a listed host is checked; the model applies exactly the checks the filter performed (none in single-host rounds)")
 	run.Assume("Filter.Run's per-host goroutines update disjoint hosts under one mutex, so a round's result does not depend on their order (not enumerated here)")
 	run.Assume("Monitor (time.After loop publishing Filter.Run's result unchanged) is not driven; the property is observed at Filter.Run")
@@ -426,6 +496,21 @@ func main() {
 				}})
 				fmt.Printf("  %s: states=%d transitions=%d reached_depth=%d fixpoint=%v completed=%v\n", name, res.States, res.Transitions, res.MaxDepth, res.Fixpoint, res.Completed)
 			}
+		}
+	}
+	// timeout search: 2 hosts, outcome alphabet {+,-,t,L}
+	tdepth := 4
+	if run.Thorough() {
+		tdepth = 6
+	}
+	for fails := 1; fails <= 3; fails++ {
+		for passes := 1; passes <= 3; passes++ {
+			fails, passes := fails, passes
+			name := fmt.Sprintf("timeouts hosts=2 Fails=%d Passes=%d depth=%d", fails, passes, tdepth)
+			res := rep.BFS(run, name, bfs.Config{MaxDepth: tdepth, Deadline: deadline, Workers: 1, New: func() (bfs.System, error) {
+				return newTimeoutSys(run, []string{"x", "y"}, fails, passes), nil
+			}})
+			fmt.Printf("  %s: states=%d transitions=%d reached_depth=%d fixpoint=%v completed=%v\n", name, res.States, res.Transitions, res.MaxDepth, res.Fixpoint, res.Completed)
 		}
 	}
 	events.mu.Lock()
